@@ -148,6 +148,9 @@ func c06Run(decls []string, poison bool) *c06Trace {
 		envs := c06Translate(tr, base, events)
 		if errText == "" {
 			tr.audit = c06AuditPointers(ir, base, envs)
+			if tr.audit != "" && os.Getenv("C06_DEBUG") != "" {
+				fmt.Fprintf(os.Stderr, "C06 audit (poison=%v): %s\n", poison, tr.audit)
+			}
 		}
 		if tr.tags["unwind"] && !strings.Contains(src, "panic(") && errText == "" {
 			// activations can only be left behind by a panic; the program has none:
